@@ -7,6 +7,7 @@ package seam
 
 import (
 	"bytes"
+	"database/sql"
 	"encoding/json"
 	"fmt"
 	"io"
@@ -408,4 +409,25 @@ func ListTree(root string) []string {
 	})
 	sort.Strings(out)
 	return out
+}
+
+// DBFault makes the SQLite file refuse one kind of write on one table (a BEFORE trigger
+// installed through a second connection raises ABORT) until the returned function is
+// called.  op is "INSERT", "UPDATE" or "DELETE".  Used by harnesses that vary the
+// database's answer: what the teamserver holds in memory and tells agents and operators
+// must stay consistent whether or not the row could be written.
+func (ts *TS) DBFault(table, op string) (undo func(), err error) {
+	d, err := sql.Open("sqlite3", filepath.Join(ts.Root, "ts.db"))
+	if err != nil {
+		return func() {}, err
+	}
+	name := "verif_fault_" + strings.ToLower(op) + "_" + table
+	if _, err = d.Exec("CREATE TRIGGER " + name + " BEFORE " + op + " ON " + table + " BEGIN SELECT RAISE(ABORT, 'verif: injected fault: disk I/O error'); END"); err != nil {
+		d.Close()
+		return func() {}, err
+	}
+	return func() {
+		d.Exec("DROP TRIGGER " + name)
+		d.Close()
+	}, nil
 }
